@@ -121,7 +121,15 @@ def q1_formulas(ctx):
         except NotArithmetic as e:
             ctx.finding('Q1', 'PercentItem::get_number/not-arithmetic', 'PercentItem::get_number: %s' % e, site=g.loc)
             continue
-        same_kind = any('type_name' in c and c.endswith('!=[0]') for c in cs)
+        # "both operands are percentages": type_name(self) == type_name(other) holds, spelled with eq or with a negated ne
+        same_kind = False
+        for d, v in conds:
+            sd = strip(d, transparent=False)
+            if sd[0] == 'call' and 'type_name' in render(sd) and re.search(r'::(eq|ne)$', sd[1]):
+                truthy = (isinstance(v, tuple) and set(v[1]) == {0}) or (not isinstance(v, tuple) and set(v) == {1})
+                falsy = not isinstance(v, tuple) and set(v) == {0}
+                if (sd[1].endswith('::eq') and truthy) or (sd[1].endswith('::ne') and falsy):
+                    same_kind = True
         if same_kind:
             continue    # percent (+-) percent: plain value
         n_arith += 1
